@@ -442,7 +442,9 @@ class ExprMixin:
                     o = a if isinstance(a, Opaque) else b
                     x = b if isinstance(a, Opaque) else a
                     if o.kind == 'str' and isinstance(x, (str, FStr)):
-                        raise EngineError('comparison of opaque string')
+                        # an opaque string against a known one: equality of their images under the (injective) embedding
+                        # of strings into opaque values -- undetermined unless something else is known about `o`
+                        return o.term == self.as_u_term(x, st)
                 return False
         raise EngineError(f'== on {type(a).__name__}, {type(b).__name__}')
 
@@ -611,6 +613,16 @@ class ExprMixin:
 
     def ev_Call(self, e, st):
         return self.eval_call(e, st)
+
+    def ev_NamedExpr(self, e, st):
+        """(name := value): binds the local and evaluates to the value"""
+        if not isinstance(e.target, ast.Name):
+            raise EngineError('walrus target')
+
+        def fin(v, s):
+            s.env[e.target.id] = v
+            return [ok(v, s)]
+        return self.bind(self.eval(e.value, st), fin)
 
     def ev_Lambda(self, e, st):
         return [ok(Closure(e, dict(st.env), None), st)]
